@@ -105,10 +105,10 @@ Proof.
   pose proof c10_refuted_b as Hb. congruence.
 Qed.
 
-(** F4 through GC: key 1 is written to the value log (version 1) and flushed, then
-    overwritten inline (version 2); a later write rotates the value-log file.  GC of the
-    sealed file finds the version-1 record still in the LSM tree, writes it back into the
-    newest memtable, and the read of key 1 returns the overwritten value. *)
+(** The former F4-through-GC witness (repaired by 2f52ea0): key 1 is written to the value log
+    (version 1) and flushed, then overwritten inline (version 2); a later write rotates the
+    value-log file.  GC of the sealed file writes the version-1 record back into the newest
+    memtable; the lookup keeps the greatest version over all sources, so the read is unchanged. *)
 Definition w11 : list step :=
   [SB [Build_entry 1 1 false 1 false false false 1] [0] [0]; SRot; SFl;
    SB [Build_entry 1 2 false 0 false false false 2] [] [];
@@ -116,22 +116,27 @@ Definition w11 : list step :=
 
 Definition s11 : rstore := recover (crash (exec_all (compile true w11) (init 1 1))).
 
-Lemma c11_before : get s11 1 = OV 2.
-Proof. vm_compute. reflexivity. Qed.
+Lemma c11_gc_example :
+  (get s11 1 = OV 2) /\ (get (maint_all [MtFlushAll; MtGc 0 0] s11) 1 = OV 2) /\
+  (length (hd (@nil rec) (s_src (maint_all [MtFlushAll; MtGc 0 0] s11))) = 1%nat).
+Proof. repeat split; vm_compute; reflexivity. Qed.
 
-Lemma c11_after : get (maint_all [MtFlushAll; MtGc 0 0] s11) 1 = OV 1.
-Proof. vm_compute. reflexivity. Qed.
+(** The lost-write scenario (repaired by fixes/C11-gc-live-pointer-equality.md): transaction 2
+    stores a new value of key 1 in value-log file 0, rotates, logs the head, and crashes before
+    its WAL records reach the file.  File 0 is sealed and holds the unreferenced record; GC of
+    it writes back only the version-1 record the store points at. *)
+Definition w_lost : list step :=
+  [SB [Build_entry 1 1 false 1 false false false 1] [0] [0];
+   SB [Build_entry 1 2 false 1 false false false 2; Build_entry 2 3 false 1 false false true 2;
+       Build_entry 3 4 false 1 false false false 2] [0] [0]].
 
-Lemma c11_refuted :
-  exists sync seg nb w ms k,
-    let s := recover (crash (exec_all (compile sync w) (init seg nb))) in
-    get (maint_all ms s) k <> get s k.
-Proof.
-  exists true, 1, 1%nat, w11, [MtFlushAll; MtGc 0 0], 1.
-  change (get (maint_all [MtFlushAll; MtGc 0 0] s11) 1 <> get s11 1).
-  rewrite c11_after, c11_before. discriminate.
-Qed.
+Definition s_lost : rstore := recover (crash (state_at 9 (compile true w_lost) (init 1 1))).
 
+Lemma c11_lost_write_example :
+  (fget pair_eqb (0, 0) (s_vlog s_lost) =
+    Some [{| v_key := 1; v_ver := 1; v_vid := 1 |}; {| v_key := 1; v_ver := 2; v_vid := 2 |}]) /\
+  (get s_lost 1 = OV 1) /\ (get (maint_all [MtFlushAll; MtGc 0 0] s_lost) 1 = OV 1).
+Proof. repeat split; vm_compute; reflexivity. Qed.
 
 (** * The structural invariant of the write path *)
 
@@ -849,3 +854,80 @@ Proof. vm_compute. reflexivity. Qed.
 Lemma maint_example :
   get (maint_all [MtFlushAll; MtMove] s11) 1 = OV 2 /\ forallb (fun m => negb (is_gc m)) [MtFlushAll; MtMove] = true.
 Proof. split; vm_compute; reflexivity. Qed.
+
+(** * Value-log GC on a recovered store *)
+
+(** what [best] returns is its accumulator or a matching record of the source *)
+Lemma best_in : forall k ver s acc r, best k ver s acc = Some r ->
+  acc = Some r \/ (In r s /\ r_key r = k /\ r_ver r <= ver).
+Proof.
+  induction s as [|x s IH]; intros acc r H; cbn [best] in H; [left; exact H|].
+  destruct ((r_key x =? k) && (r_ver x <=? ver)) eqn:E.
+  - apply IH in H. destruct H as [H|[Hin Hr]]; [|right; split; [right; exact Hin|exact Hr]].
+    apply andb_true_iff in E. destruct E as [Ek Ev]. apply N.eqb_eq in Ek. apply N.leb_le in Ev.
+    destruct acc as [a|].
+    + destruct (rk_ltb a x); inversion H as [Hx]; [subst r; right; split; [left; reflexivity|split; assumption]|left; reflexivity].
+    + inversion H as [Hx]; subst r. right; split; [left; reflexivity|split; assumption].
+  - apply IH in H. destruct H as [H|[Hin Hr]]; [left; exact H|right; split; [right; exact Hin|exact Hr]].
+Qed.
+
+Lemma lookup_acc_in : forall k ver srcs acc r, lookup_acc k ver srcs acc = Some r ->
+  acc = Some r \/ exists s, In s srcs /\ In r s /\ r_key r = k /\ r_ver r <= ver.
+Proof.
+  induction srcs as [|s t IH]; intros acc r H; cbn [lookup_acc] in H; [left; exact H|].
+  apply IH in H. destruct H as [H|[s' [Hs' Hr]]]; [|right; exists s'; split; [right; exact Hs'|exact Hr]].
+  destruct (best k ver s None) as [b|] eqn:Eb; [|left; exact H].
+  assert (Hb : In b s /\ r_key b = k /\ r_ver b <= ver).
+  { apply best_in in Eb. destruct Eb as [Eb|Eb]; [discriminate|exact Eb]. }
+  destruct acc as [a|].
+  - destruct (r_ver a <? r_ver b); [|left; exact H].
+    inversion H as [Hx]; subst r. right; exists s; split; [left; reflexivity|exact Hb].
+  - inversion H as [Hx]; subst r. right; exists s; split; [left; reflexivity|exact Hb].
+Qed.
+
+Lemma lookup_src_in : forall k ver srcs r, lookup_src k ver srcs = Some r ->
+  exists s, In s srcs /\ In r s /\ r_key r = k /\ r_ver r <= ver.
+Proof.
+  intros k ver srcs r H. apply lookup_acc_in in H. destruct H as [H|H]; [discriminate|exact H].
+Qed.
+
+Lemma gc_scan_spec : forall s b f vrs i0 vr, In vr (gc_scan s b f i0 vrs) ->
+  exists j, nth_error vrs j = Some vr /\ gc_live s b f (i0 + N.of_nat j) vr = true.
+Proof.
+  induction vrs as [|x vrs IH]; intros i0 vr H; [destruct H|].
+  cbn [gc_scan] in H. apply in_app_or in H. destruct H as [H|H].
+  - destruct (gc_live s b f i0 x) eqn:E; [|destruct H]. destruct H as [H|[]]; subst x.
+    exists 0%nat. split; [reflexivity|]. rewrite N.add_0_r. exact E.
+  - apply IH in H. destruct H as [j [Hn Hl]]. exists (S j). split; [exact Hn|].
+    replace (i0 + N.of_nat (S j)) with (i0 + 1 + N.of_nat j) by lia. exact Hl.
+Qed.
+
+(** every record GC writes back is the target of the value pointer of a record of the store
+    that is not a tombstone and carries the same key: bytes that no logged record refers to
+    (the leftovers of a request that crashed between its value-log write and the WAL) are
+    never written back *)
+Theorem gc_writes_back_referenced : forall s b f vrs vr,
+  fget pair_eqb (b, f) (s_vlog s) = Some vrs ->
+  In vr (gc_scan s b f 0 vrs) ->
+  exists src r j,
+    In src (s_src s) /\ In r src /\ r_key r = v_key vr /\ r_ver r <= v_ver vr /\ r_del r = false /\
+    r_ptr r = Some {| p_b := b; p_f := f; p_slot := N.of_nat j |} /\ nth_error vrs j = Some vr.
+Proof.
+  intros s b f vrs vr Hf Hin. apply gc_scan_spec in Hin. destruct Hin as [j [Hn Hl]].
+  unfold gc_live in Hl. destruct (lookup_src (v_key vr) (v_ver vr) (s_src s)) as [r|] eqn:El; [|discriminate].
+  apply andb_true_iff in Hl. destruct Hl as [Hd Hp].
+  destruct (r_ptr r) as [p|] eqn:Ep; [|discriminate].
+  apply andb_true_iff in Hp. destruct Hp as [Hp Hs]. apply andb_true_iff in Hp. destruct Hp as [Hb Hff].
+  apply N.eqb_eq in Hb, Hff, Hs. rewrite N.add_0_l in Hs.
+  apply lookup_src_in in El. destruct El as [src [Hsrc [Hr [Hk Hv]]]].
+  assert (Epp : r_ptr r = Some {| p_b := b; p_f := f; p_slot := N.of_nat j |}).
+  { rewrite Ep. destruct p as [pb pf ps]; cbn in *; subst; reflexivity. }
+  exists src, r, j. repeat split; try assumption.
+  destruct (r_del r); [discriminate|reflexivity].
+Qed.
+
+(** a GC that writes nothing back only deletes the file *)
+Lemma gc_file_sources : forall s b f vrs,
+  fget pair_eqb (b, f) (s_vlog s) = Some vrs -> gc_scan s b f 0 vrs = [] ->
+  s_src (gc_file s b f) = s_src s.
+Proof. intros s b f vrs Hf Hg. unfold gc_file. rewrite Hf, Hg. reflexivity. Qed.
